@@ -251,6 +251,12 @@ func (c *SizedLRU) RemoveKey(key string) {
 
 // Remove a *list.Element from the cache.
 func (c *SizedLRU) RemoveElement(elem *list.Element) {
+	// The caller looked elem up before releasing the lock: another request
+	// might have removed or replaced it since then. Removing it a second
+	// time would subtract its size again and drop its successor's index entry.
+	if kv, ok := elem.Value.(*entry); !ok || c.cache[kv.key] != elem {
+		return
+	}
 	c.removeElement(elem)
 	c.gaugeCacheLogicalBytes.Set(float64(c.uncompressedSize))
 }
